@@ -14,6 +14,7 @@ TUS = ["core/list.c", "core/lmq.c", "core/pollable.c", "core/options.c"]
 CUR = ["A(0) A(1) S(0,1) Z", "A(0) A(1) S(0,0) T(0,1) T(1,1) Z", "A(0) S(0,0) S(1,0) S(2,0) T(0,1) T(0,1) Z", "S(0,0) Z", "S(0,1) A(0) Z",
        "A(0) W(0) R(0,0) Z", "A(0) R(0,1) W(0) Z", "A(0) A(1) W(0) W(1) W(0) R(0,0) R(1,0) R(2,0) Z", "A(0) W(0) S(0,0) R(0,0) Z",
        "A(0) A(1) S(0,0) C(0) S(1,0) T(1,1) Z", "A(0) S(0,0) T(0,0) Z", "A(0) R(0,1) Z", "A(0) A(1) W(1) S(0,0) T(0,1) R(0,1) Z"]
+CUR += ["A(0) R(0,1) R(1,1) W(0) W(0) Z", "A(0) A(1) R(0,1) R(1,1) R(2,1) W(1) W(0) W(1) Z"]
 RAWCUR = ["A(0) A(1) SR(0,0,0) Z", "A(0) A(1) SR(0,0,1) T(0,1) Z", "A(0) A(1) SR(0,1,-1) Z", "A(0) W(0) R(0,0) Z", "A(0) A(1) W(0) R(0,0) SR(1,0,0) Z",
           "A(0) SR(0,0,0) SR(1,0,0) Z"]
 # one slow peer (its one-slot queue is full) must not deprive the other peers: blocking sends (the non-blocking form is open finding F6b)
